@@ -98,15 +98,22 @@ def leak_snapshot():
             'sigint': repr(signal.getsignal(signal.SIGINT))}
 
 
+def layout_bits(pool):
+    pp = pool.pool_params
+    return ''.join('1' if b else '0' for b in (pp.pass_worker_id, pp.shared_objects is not None, pp.use_worker_state))
+
+
 def run_call(pool, call, res):
     import userfuncs
     kind = call['kind']
     params = dict(call.get('params', {}))
+    dyn = call.get('dynamic_extras')          # pick the function variant matching the pool's CURRENT settings
+    bits = layout_bits(pool) if dyn else None
     if call.get('init'):
-        params['worker_init'] = userfuncs.init
+        params['worker_init'] = getattr(userfuncs, 'init_' + bits) if dyn else userfuncs.init
     if call.get('exit'):
-        params['worker_exit'] = userfuncs.exit_
-    func = getattr(userfuncs, call.get('func', 'task'))
+        params['worker_exit'] = getattr(userfuncs, 'exit_' + bits) if dyn else userfuncs.exit_
+    func = getattr(userfuncs, call.get('func', 'task') + ('_' + bits if dyn else ''))
     out = {'kind': kind}
     t0 = time.time()
     try:
@@ -134,7 +141,7 @@ def run_call(pool, call, res):
                 if isinstance(value, np.ndarray):
                     value = ['nd', value.tolist()]
                 else:
-                    value = [userfuncs.canon(v) if not (isinstance(v, list) and v and v[0] == 'R') else v for v in value]
+                    value = [userfuncs.canon(v) if not (isinstance(v, list) and v and v[0] in ('R', 'Q')) else v for v in value]
             except ImportError:
                 pass
             out['value'] = value
